@@ -90,6 +90,8 @@ def check_property(prop, tier, args):
         return core.EXIT_UNDECIDED
 
     harness_timeout = 600 if tier == "quick" else 1200
+    if os.environ.get("VERIF_HARNESS_TIMEOUT"):      # debugging aid only
+        harness_timeout = int(os.environ["VERIF_HARNESS_TIMEOUT"])
     per = []
     undecided = []
     failed = []
